@@ -1,6 +1,549 @@
-//! C31: not implemented yet.
+//! C31: handle misuse over the C API.  A case is one whole call sequence:
+//!   {"ops":[{"f":"<exported fn>","a":[arg..]}..], "free_all":bool}
+//! arg forms (in the declaration order of the exported function's parameters):
+//!   {"op":i,"j":k,"off":o}  pointer = k-th tracked output of op i (+o bytes), 0 if that op produced none
+//!   {"null":true}           NULL
+//!   {"foreign":j}           address of a harness-owned block that the library never produced
+//!   {"s":"text"|null} / {"slen":n}   C string (NULL / a string of n bytes)
+//!   {"n":int}  {"out":bool} (out-parameter present / NULL)  {"bytes":hex|null}  {"data":"jpeg"|"empty"|"junk"}
+//!   {"arr":i}               the string array returned by op i        {"info":{..}|null}  C2paSignerInfo
+//! Foreign / freed / wrong-type pointers are only ever *passed* to the API, never dereferenced here.
+//! Output per op: model argument values, return value, tracked outputs, whether a last error was set and its class,
+//! and the registry snapshot after the call (hook verif_registry_snapshot).
+#![allow(deprecated)]
+use std::any::TypeId;
+use std::collections::HashMap;
+use std::ffi::{c_void, CStr, CString};
+use std::io::{Cursor, Read, Seek, SeekFrom, Write};
+use std::os::raw::{c_char, c_int, c_uchar};
+use std::sync::Arc;
+
+use c2pa_c::*;
 use serde_json::{json, Value};
 
-pub fn run(_case: &Value) -> Value {
-    json!({"r": "unimplemented"})
+const JPEG: &[u8] = include_bytes!("/repo/sdk/tests/fixtures/C.jpg");
+const CERTS: &str = include_str!("/repo/sdk/tests/fixtures/certs/ed25519.pub");
+const KEY: &str = include_str!("/repo/sdk/tests/fixtures/certs/ed25519.pem");
+
+type Cur = Cursor<Vec<u8>>;
+
+unsafe extern "C" fn s_read(ctx: *mut StreamContext, data: *mut u8, len: isize) -> isize {
+    let c = &mut *(ctx as *mut Cur);
+    let buf = std::slice::from_raw_parts_mut(data, len as usize);
+    c.read(buf).map(|n| n as isize).unwrap_or(-1)
+}
+unsafe extern "C" fn s_seek(ctx: *mut StreamContext, offset: isize, mode: C2paSeekMode) -> isize {
+    let c = &mut *(ctx as *mut Cur);
+    let w = match mode {
+        C2paSeekMode::Start => {
+            if offset < 0 {
+                return -1;
+            }
+            SeekFrom::Start(offset as u64)
+        }
+        C2paSeekMode::Current => SeekFrom::Current(offset as i64),
+        C2paSeekMode::End => SeekFrom::End(offset as i64),
+    };
+    c.seek(w).map(|n| n as isize).unwrap_or(-1)
+}
+unsafe extern "C" fn s_write(ctx: *mut StreamContext, data: *const u8, len: isize) -> isize {
+    let c = &mut *(ctx as *mut Cur);
+    let buf = std::slice::from_raw_parts(data, len as usize);
+    c.write(buf).map(|n| n as isize).unwrap_or(-1)
+}
+unsafe extern "C" fn s_flush(_ctx: *mut StreamContext) -> isize {
+    0
+}
+unsafe extern "C" fn sign_cb(_ctx: *const (), data: *const c_uchar, len: usize, out: *mut c_uchar, out_len: usize) -> isize {
+    let d = std::slice::from_raw_parts(data, len);
+    match c2pa::CallbackSigner::ed25519_sign(d, KEY.as_bytes()) {
+        Ok(sig) if sig.len() <= out_len => {
+            std::ptr::copy_nonoverlapping(sig.as_ptr(), out, sig.len());
+            sig.len() as isize
+        }
+        _ => -1,
+    }
+}
+unsafe extern "C" fn http_cb(_ctx: *mut c_void, _req: *const C2paHttpRequest, _resp: *mut C2paHttpResponse) -> c_int {
+    -1
+}
+unsafe extern "C" fn progress_cb(_ctx: *const c_void, _phase: C2paProgressPhase, _step: u32, _total: u32) -> c_int {
+    1
+}
+
+fn type_names() -> Vec<(TypeId, &'static str)> {
+    vec![
+        (TypeId::of::<c2pa::Settings>(), "C2paSettings"),
+        (TypeId::of::<c2pa::Context>(), "C2paContextBuilder"),
+        (TypeId::of::<Arc<c2pa::Context>>(), "C2paContext"),
+        (TypeId::of::<c2pa::Reader>(), "C2paReader"),
+        (TypeId::of::<c2pa::Builder>(), "C2paBuilder"),
+        (TypeId::of::<C2paSigner>(), "C2paSigner"),
+        (TypeId::of::<C2paHttpResolver>(), "C2paHttpResolver"),
+        (TypeId::of::<C2paStream>(), "C2paStream"),
+        (TypeId::of::<CString>(), "CString"),
+        (TypeId::of::<Box<[u8]>>(), "Bytes"),
+    ]
+}
+
+fn snapshot(names: &[(TypeId, &'static str)]) -> Vec<(usize, &'static str)> {
+    let mut v: Vec<(usize, &'static str)> = utils::verif_registry_snapshot()
+        .into_iter()
+        .map(|(a, t)| (a, names.iter().find(|(x, _)| *x == t).map(|(_, n)| *n).unwrap_or("?")))
+        .collect();
+    v.sort();
+    v
+}
+
+#[derive(Clone)]
+enum A {
+    P(usize),
+    S(*const c_char, u64),
+    N(u64),
+    Out(bool),
+    Bytes(*const u8, usize),
+    Arr(usize, usize),
+    Info(Option<[*const c_char; 4]>),
+}
+
+struct Env {
+    outs: Vec<Vec<usize>>,
+    arrays: HashMap<usize, (usize, usize)>,
+    foreign: Vec<Box<[u64; 16]>>,
+    keep: Vec<CString>,
+    keepb: Vec<Vec<u8>>,
+    ctxs: Vec<*mut Cur>,
+}
+
+impl Env {
+    fn cstr(&mut self, s: String) -> *const c_char {
+        let c = CString::new(s).expect("cstring");
+        let p = c.as_ptr();
+        self.keep.push(c);
+        p
+    }
+    fn arg(&mut self, v: &Value) -> A {
+        if let Some(i) = v.get("op").and_then(|x| x.as_u64()) {
+            let j = v.get("j").and_then(|x| x.as_u64()).unwrap_or(0) as usize;
+            let off = v.get("off").and_then(|x| x.as_u64()).unwrap_or(0) as usize;
+            let base = self.outs.get(i as usize).and_then(|o| o.get(j)).copied().unwrap_or(0);
+            return A::P(if base == 0 { 0 } else { base + off });
+        }
+        if v.get("null").is_some() {
+            return A::P(0);
+        }
+        if let Some(j) = v.get("foreign").and_then(|x| x.as_u64()) {
+            let n = self.foreign.len();
+            return A::P(self.foreign[j as usize % n].as_ptr() as usize);
+        }
+        if let Some(s) = v.get("s") {
+            return match s.as_str() {
+                Some(t) => {
+                    let p = self.cstr(t.to_string());
+                    A::S(p, t.len() as u64 + 1)
+                }
+                None => A::S(std::ptr::null(), 0),
+            };
+        }
+        if let Some(n) = v.get("slen").and_then(|x| x.as_u64()) {
+            let p = self.cstr("a".repeat(n as usize));
+            return A::S(p, n + 1);
+        }
+        if let Some(n) = v.get("n").and_then(|x| x.as_u64()) {
+            return A::N(n);
+        }
+        if let Some(b) = v.get("out").and_then(|x| x.as_bool()) {
+            return A::Out(b);
+        }
+        if let Some(b) = v.get("bytes") {
+            return match b.as_str() {
+                Some(h) => {
+                    let d = hex::decode(h).expect("hex");
+                    let p = d.as_ptr();
+                    let l = d.len();
+                    self.keepb.push(d);
+                    A::Bytes(p, l)
+                }
+                None => A::Bytes(std::ptr::null(), 0),
+            };
+        }
+        if let Some(d) = v.get("data").and_then(|x| x.as_str()) {
+            let bytes = match d {
+                "jpeg" => JPEG.to_vec(),
+                "junk" => vec![0x5au8; 64],
+                _ => Vec::new(),
+            };
+            let c = Box::into_raw(Box::new(Cursor::new(bytes)));
+            self.ctxs.push(c);
+            return A::P(c as usize);
+        }
+        if let Some(i) = v.get("arr").and_then(|x| x.as_u64()) {
+            let (p, n) = self.arrays.get(&(i as usize)).copied().unwrap_or((0, 0));
+            return A::Arr(p, n);
+        }
+        if let Some(i) = v.get("info") {
+            if i.is_null() {
+                return A::Info(None);
+            }
+            let mut f = [std::ptr::null::<c_char>(); 4];
+            for (k, name) in ["alg", "cert", "key", "tsa"].iter().enumerate() {
+                let t = match i.get(*name).and_then(|x| x.as_str()) {
+                    None => continue,
+                    Some("@cert") => CERTS.to_string(),
+                    Some("@key") => KEY.to_string(),
+                    Some(t) => t.to_string(),
+                };
+                f[k] = self.cstr(t);
+            }
+            return A::Info(Some(f));
+        }
+        panic!("bad arg {}", v);
+    }
+}
+
+enum R {
+    Ptr(usize),
+    Int(i64),
+    Bool(bool),
+    Void,
+}
+
+struct CallOut {
+    r: R,
+    extra: Vec<usize>,
+}
+
+fn p(a: &[A], i: usize) -> usize {
+    match &a[i] {
+        A::P(x) => *x,
+        A::Arr(x, _) => *x,
+        _ => panic!("arg {} is not a pointer", i),
+    }
+}
+fn s(a: &[A], i: usize) -> *const c_char {
+    match &a[i] {
+        A::S(x, _) => *x,
+        _ => panic!("arg {} is not a string", i),
+    }
+}
+fn n(a: &[A], i: usize) -> u64 {
+    match &a[i] {
+        A::N(x) => *x,
+        _ => panic!("arg {} is not a number", i),
+    }
+}
+fn o(a: &[A], i: usize) -> bool {
+    match &a[i] {
+        A::Out(x) => *x,
+        _ => panic!("arg {} is not an out flag", i),
+    }
+}
+fn b(a: &[A], i: usize) -> (*const u8, usize) {
+    match &a[i] {
+        A::Bytes(x, l) => (*x, *l),
+        _ => panic!("arg {} is not bytes", i),
+    }
+}
+
+/// length handed to the API: the requested one when the guard must reject it anyway, otherwise never past the buffer
+fn blen(bp: *const u8, bl: usize, want: u64) -> usize {
+    if bp.is_null() || want > isize::MAX as u64 {
+        want as usize
+    } else {
+        bl.min(want as usize)
+    }
+}
+
+fn alg_of(k: u64) -> C2paSigningAlg {
+    match k % 7 {
+        0 => C2paSigningAlg::Es256,
+        1 => C2paSigningAlg::Es384,
+        2 => C2paSigningAlg::Es512,
+        3 => C2paSigningAlg::Ps256,
+        4 => C2paSigningAlg::Ps384,
+        5 => C2paSigningAlg::Ps512,
+        _ => C2paSigningAlg::Ed25519,
+    }
+}
+
+/// one exported function; `a` is in declaration order
+unsafe fn call(env: &mut Env, opi: usize, f: &str, a: &[A]) -> CallOut {
+    let mut extra = Vec::new();
+    let mut outp: *const c_uchar = std::ptr::null();
+    macro_rules! outptr {
+        ($i:expr) => {
+            if o(a, $i) { &mut outp as *mut *const c_uchar } else { std::ptr::null_mut() }
+        };
+    }
+    let r = match f {
+        // ---- no handle parameters
+        "c2pa_version" => R::Ptr(c2pa_version() as usize),
+        "c2pa_error" => R::Ptr(c2pa_error() as usize),
+        "c2pa_error_set_last" => R::Int(c2pa_error_set_last(s(a, 0)) as i64),
+        "c2pa_settings_new" => R::Ptr(c2pa_settings_new() as usize),
+        "c2pa_context_builder_new" => R::Ptr(c2pa_context_builder_new() as usize),
+        "c2pa_context_new" => R::Ptr(c2pa_context_new() as usize),
+        "c2pa_reader_new" => R::Ptr(c2pa_reader_new() as usize),
+        "c2pa_builder_from_json" => R::Ptr(c2pa_builder_from_json(s(a, 0)) as usize),
+        "c2pa_http_resolver_create" => R::Ptr(c2pa_http_resolver_create(p(a, 0) as *const c_void, http_cb) as usize),
+        "c2pa_create_stream" => R::Ptr(c2pa_create_stream(p(a, 0) as *mut StreamContext, s_read, s_seek, s_write, s_flush) as usize),
+        "c2pa_signer_create" => R::Ptr(c2pa_signer_create(p(a, 0) as *const c_void, sign_cb, alg_of(n(a, 2)), s(a, 3), s(a, 4)) as usize),
+        "c2pa_ed25519_sign" => {
+            let (bp, bl) = b(a, 0);
+            R::Ptr(c2pa_ed25519_sign(bp, blen(bp, bl, n(a, 1)), s(a, 2)) as usize)
+        }
+        "c2pa_format_embeddable" => {
+            let (bp, bl) = b(a, 1);
+            let r = c2pa_format_embeddable(s(a, 0), bp, blen(bp, bl, n(a, 2)), outptr!(3));
+            R::Int(r)
+        }
+        "c2pa_signer_from_info" => match &a[0] {
+            A::Info(Some(f4)) => {
+                let info = C2paSignerInfo { alg: f4[0], sign_cert: f4[1], private_key: f4[2], ta_url: f4[3] };
+                R::Ptr(c2pa_signer_from_info(&info) as usize)
+            }
+            _ => {
+                // a C caller passing NULL for the struct: same ABI, pointer instead of reference
+                let g: unsafe extern "C" fn(*const C2paSignerInfo) -> *mut C2paSigner =
+                    std::mem::transmute(c2pa_signer_from_info as unsafe extern "C" fn(&C2paSignerInfo) -> *mut C2paSigner);
+                R::Ptr(g(std::ptr::null()) as usize)
+            }
+        },
+        "c2pa_reader_supported_mime_types" | "c2pa_builder_supported_mime_types" => {
+            let mut count: usize = 0;
+            let cp = if o(a, 0) { &mut count as *mut usize } else { std::ptr::null_mut() };
+            let arr = if f == "c2pa_reader_supported_mime_types" { c2pa_reader_supported_mime_types(cp) } else { c2pa_builder_supported_mime_types(cp) };
+            if !arr.is_null() {
+                for i in 0..count {
+                    extra.push(*arr.add(i) as usize);
+                }
+                env.arrays.insert(opi, (arr as usize, count));
+            }
+            R::Void
+        }
+        "c2pa_free_string_array" => {
+            let (ap, an) = match &a[0] {
+                A::Arr(x, c) => (*x, *c),
+                A::P(x) => (*x, n(a, 1) as usize),
+                _ => panic!("arr"),
+            };
+            c2pa_free_string_array(ap as *const *const c_char, an);
+            R::Void
+        }
+        // ---- settings / context builder / context
+        "c2pa_settings_update_from_string" => R::Int(c2pa_settings_update_from_string(p(a, 0) as *mut _, s(a, 1), s(a, 2)) as i64),
+        "c2pa_settings_set_value" => R::Int(c2pa_settings_set_value(p(a, 0) as *mut _, s(a, 1), s(a, 2)) as i64),
+        "c2pa_context_builder_set_settings" => R::Int(c2pa_context_builder_set_settings(p(a, 0) as *mut _, p(a, 1) as *mut _) as i64),
+        "c2pa_context_builder_set_signer" => R::Int(c2pa_context_builder_set_signer(p(a, 0) as *mut _, p(a, 1) as *mut _) as i64),
+        "c2pa_context_builder_set_progress_callback" => {
+            R::Int(c2pa_context_builder_set_progress_callback(p(a, 0) as *mut _, p(a, 1) as *const c_void, progress_cb) as i64)
+        }
+        "c2pa_context_builder_set_http_resolver" => R::Int(c2pa_context_builder_set_http_resolver(p(a, 0) as *mut _, p(a, 1) as *mut _) as i64),
+        "c2pa_context_builder_build" => R::Ptr(c2pa_context_builder_build(p(a, 0) as *mut _) as usize),
+        "c2pa_context_cancel" => R::Int(c2pa_context_cancel(p(a, 0) as *mut _) as i64),
+        // ---- reader
+        "c2pa_reader_from_context" => R::Ptr(c2pa_reader_from_context(p(a, 0) as *mut _) as usize),
+        "c2pa_reader_from_stream" => R::Ptr(c2pa_reader_from_stream(s(a, 0), p(a, 1) as *mut _) as usize),
+        "c2pa_reader_with_stream" => R::Ptr(c2pa_reader_with_stream(p(a, 0) as *mut _, s(a, 1), p(a, 2) as *mut _) as usize),
+        "c2pa_reader_with_fragment" => R::Ptr(c2pa_reader_with_fragment(p(a, 0) as *mut _, s(a, 1), p(a, 2) as *mut _, p(a, 3) as *mut _) as usize),
+        "c2pa_reader_with_manifest_data_and_stream" => {
+            let (bp, bl) = b(a, 3);
+            R::Ptr(c2pa_reader_with_manifest_data_and_stream(p(a, 0) as *mut _, s(a, 1), p(a, 2) as *mut _, bp, blen(bp, bl, n(a, 4))) as usize)
+        }
+        "c2pa_reader_json" => R::Ptr(c2pa_reader_json(p(a, 0) as *mut _) as usize),
+        "c2pa_reader_detailed_json" => R::Ptr(c2pa_reader_detailed_json(p(a, 0) as *mut _) as usize),
+        "c2pa_reader_crjson" => R::Ptr(c2pa_reader_crjson(p(a, 0) as *mut _) as usize),
+        "c2pa_reader_remote_url" => R::Ptr(c2pa_reader_remote_url(p(a, 0) as *mut _) as usize),
+        "c2pa_reader_is_embedded" => R::Bool(c2pa_reader_is_embedded(p(a, 0) as *mut _)),
+        "c2pa_reader_resource_to_stream" => R::Int(c2pa_reader_resource_to_stream(p(a, 0) as *mut _, s(a, 1), p(a, 2) as *mut _)),
+        // ---- builder
+        "c2pa_builder_from_context" => R::Ptr(c2pa_builder_from_context(p(a, 0) as *mut _) as usize),
+        "c2pa_builder_from_archive" => R::Ptr(c2pa_builder_from_archive(p(a, 0) as *mut _) as usize),
+        "c2pa_builder_with_definition" => R::Ptr(c2pa_builder_with_definition(p(a, 0) as *mut _, s(a, 1)) as usize),
+        "c2pa_builder_with_archive" => R::Ptr(c2pa_builder_with_archive(p(a, 0) as *mut _, p(a, 1) as *mut _) as usize),
+        "c2pa_builder_set_intent" => {
+            let intent = match n(a, 1) % 3 {
+                0 => C2paBuilderIntent::Create,
+                1 => C2paBuilderIntent::Edit,
+                _ => C2paBuilderIntent::Update,
+            };
+            R::Int(c2pa_builder_set_intent(p(a, 0) as *mut _, intent, C2paDigitalSourceType::DigitalCapture) as i64)
+        }
+        "c2pa_builder_set_no_embed" => {
+            c2pa_builder_set_no_embed(p(a, 0) as *mut _);
+            R::Void
+        }
+        "c2pa_builder_set_remote_url" => R::Int(c2pa_builder_set_remote_url(p(a, 0) as *mut _, s(a, 1)) as i64),
+        "c2pa_builder_set_base_path" => R::Int(c2pa_builder_set_base_path(p(a, 0) as *mut _, s(a, 1)) as i64),
+        "c2pa_builder_add_resource" => R::Int(c2pa_builder_add_resource(p(a, 0) as *mut _, s(a, 1), p(a, 2) as *mut _) as i64),
+        "c2pa_builder_add_ingredient_from_stream" => {
+            R::Int(c2pa_builder_add_ingredient_from_stream(p(a, 0) as *mut _, s(a, 1), s(a, 2), p(a, 3) as *mut _) as i64)
+        }
+        "c2pa_builder_add_action" => R::Int(c2pa_builder_add_action(p(a, 0) as *mut _, s(a, 1)) as i64),
+        "c2pa_builder_to_archive" => R::Int(c2pa_builder_to_archive(p(a, 0) as *mut _, p(a, 1) as *mut _) as i64),
+        "c2pa_builder_add_ingredient_from_archive" => R::Int(c2pa_builder_add_ingredient_from_archive(p(a, 0) as *mut _, p(a, 1) as *mut _) as i64),
+        "c2pa_builder_write_ingredient_archive" => R::Int(c2pa_builder_write_ingredient_archive(p(a, 0) as *mut _, s(a, 1), p(a, 2) as *mut _) as i64),
+        "c2pa_builder_sign" => R::Int(c2pa_builder_sign(p(a, 0) as *mut _, s(a, 1), p(a, 2) as *mut _, p(a, 3) as *mut _, p(a, 4) as *mut _, outptr!(5))),
+        "c2pa_builder_sign_context" => R::Int(c2pa_builder_sign_context(p(a, 0) as *mut _, s(a, 1), p(a, 2) as *mut _, p(a, 3) as *mut _, outptr!(4))),
+        "c2pa_builder_data_hashed_placeholder" => R::Int(c2pa_builder_data_hashed_placeholder(p(a, 0) as *mut _, n(a, 1) as usize, s(a, 2), outptr!(3))),
+        "c2pa_builder_sign_data_hashed_embeddable" => {
+            R::Int(c2pa_builder_sign_data_hashed_embeddable(p(a, 0) as *mut _, p(a, 1) as *mut _, s(a, 2), s(a, 3), p(a, 4) as *mut _, outptr!(5)))
+        }
+        "c2pa_builder_needs_placeholder" => R::Int(c2pa_builder_needs_placeholder(p(a, 0) as *mut _, s(a, 1)) as i64),
+        "c2pa_builder_hash_type" => {
+            let mut ht = C2paHashType::DataHash;
+            let hp = if o(a, 2) { &mut ht as *mut C2paHashType } else { std::ptr::null_mut() };
+            R::Int(c2pa_builder_hash_type(p(a, 0) as *mut _, s(a, 1), hp) as i64)
+        }
+        "c2pa_builder_placeholder" => R::Int(c2pa_builder_placeholder(p(a, 0) as *mut _, s(a, 1), outptr!(2))),
+        "c2pa_builder_sign_embeddable" => R::Int(c2pa_builder_sign_embeddable(p(a, 0) as *mut _, s(a, 1), outptr!(2))),
+        "c2pa_builder_set_data_hash_exclusions" => R::Int(c2pa_builder_set_data_hash_exclusions(p(a, 0) as *mut _, std::ptr::null(), 0) as i64),
+        "c2pa_builder_set_fixed_size_merkle" => R::Int(c2pa_builder_set_fixed_size_merkle(p(a, 0) as *mut _, n(a, 1) as usize) as i64),
+        "c2pa_builder_hash_mdat_bytes" => {
+            let (bp, bl) = b(a, 2);
+            R::Int(c2pa_builder_hash_mdat_bytes(p(a, 0) as *mut _, n(a, 1) as usize, bp, blen(bp, bl, n(a, 3)), false) as i64)
+        }
+        "c2pa_builder_update_hash_from_stream" => R::Int(c2pa_builder_update_hash_from_stream(p(a, 0) as *mut _, s(a, 1), p(a, 2) as *mut _) as i64),
+        // ---- signer
+        "c2pa_identity_signer_create" => {
+            R::Ptr(c2pa_identity_signer_create(p(a, 0) as *mut _, p(a, 1) as *mut _, std::ptr::null(), std::ptr::null()) as usize)
+        }
+        "c2pa_signer_reserve_size" => R::Int(c2pa_signer_reserve_size(p(a, 0) as *mut _)),
+        // ---- free
+        "c2pa_free" => R::Int(c2pa_free(p(a, 0) as *const c_void) as i64),
+        "c2pa_string_free" => {
+            c2pa_string_free(p(a, 0) as *mut c_char);
+            R::Void
+        }
+        "c2pa_release_string" => {
+            c2pa_release_string(p(a, 0) as *mut c_char);
+            R::Void
+        }
+        "c2pa_reader_free" => {
+            c2pa_reader_free(p(a, 0) as *mut _);
+            R::Void
+        }
+        "c2pa_builder_free" => {
+            c2pa_builder_free(p(a, 0) as *mut _);
+            R::Void
+        }
+        "c2pa_signer_free" => {
+            c2pa_signer_free(p(a, 0) as *const _);
+            R::Void
+        }
+        "c2pa_manifest_bytes_free" => {
+            c2pa_manifest_bytes_free(p(a, 0) as *const c_uchar);
+            R::Void
+        }
+        "c2pa_signature_free" => {
+            c2pa_signature_free(p(a, 0) as *const u8);
+            R::Void
+        }
+        "c2pa_release_stream" => {
+            c2pa_release_stream(p(a, 0) as *mut _);
+            R::Void
+        }
+        "cimpl_free" => R::Int(cimpl_free(p(a, 0) as *mut c_void) as i64),
+        _ => panic!("unknown function {}", f),
+    };
+    if !outp.is_null() {
+        extra.push(outp as usize);
+    }
+    CallOut { r, extra }
+}
+
+fn model_args(a: &[A]) -> Vec<Value> {
+    let mut v = Vec::new();
+    for x in a {
+        match x {
+            A::P(q) => v.push(json!(["p", q])),
+            A::S(_, m) => v.push(json!(["n", m])),
+            A::N(k) => v.push(json!(["n", k])),
+            A::Out(t) => v.push(json!(["n", if *t { 1 } else { 0 }])),
+            A::Bytes(q, _) => v.push(json!(["n", if q.is_null() { 0 } else { 1 }])),
+            A::Arr(q, c) => {
+                v.push(json!(["p", q]));
+                v.push(json!(["n", c]));
+            }
+            A::Info(i) => match i {
+                None => v.push(json!(["n", 0])),
+                Some(f4) => {
+                    v.push(json!(["n", 1]));
+                    for q in f4.iter().take(3) {
+                        let l = if q.is_null() { 0 } else { unsafe { CStr::from_ptr(*q) }.to_bytes().len() as u64 + 1 };
+                        v.push(json!(["n", l]));
+                    }
+                }
+            },
+        }
+    }
+    v
+}
+
+pub fn run(case: &Value) -> Value {
+    let names = type_names();
+    let mut env = Env {
+        outs: Vec::new(),
+        arrays: HashMap::new(),
+        foreign: (0..4).map(|_| Box::new([0u64; 16])).collect(),
+        keep: Vec::new(),
+        keepb: Vec::new(),
+        ctxs: Vec::new(),
+    };
+    let start = snapshot(&names);
+    let mut trace: Vec<Value> = Vec::new();
+    let ops = case["ops"].as_array().cloned().unwrap_or_default();
+    let mut do_op = |env: &mut Env, f: &str, args: Vec<A>, trace: &mut Vec<Value>| {
+        let opi = env.outs.len();
+        let _ = CimplError::take_last();
+        let out = unsafe { call(env, opi, f, &args) };
+        let err = CimplError::take_last();
+        let after = snapshot(&names);
+        let mut outs: Vec<usize> = Vec::new();
+        let (rk, rv) = match out.r {
+            R::Ptr(q) => {
+                if q != 0 {
+                    outs.push(q);
+                }
+                ("ptr", json!(q))
+            }
+            R::Int(i) => ("int", json!(i)),
+            R::Bool(t) => ("bool", json!(t)),
+            R::Void => ("void", Value::Null),
+        };
+        outs.extend(out.extra.iter().copied());
+        let outs_t: Vec<Value> = outs
+            .iter()
+            .map(|q| json!([q, after.iter().find(|(x, _)| x == q).map(|(_, t)| *t).unwrap_or("untracked")]))
+            .collect();
+        env.outs.push(outs);
+        let (cls, msg) = match &err {
+            Some(e) => {
+                let m = e.message().to_string();
+                (m.split(':').next().unwrap_or("").to_string(), m)
+            }
+            None => (String::new(), String::new()),
+        };
+        trace.push(json!({
+            "f": f, "args": model_args(&args), "rk": rk, "ret": rv, "outs": outs_t,
+            "err": err.is_some(), "cls": cls, "msg": msg.chars().take(80).collect::<String>(),
+            "reg": after.iter().map(|(x, t)| json!([x, t])).collect::<Vec<_>>(),
+        }));
+    };
+    for op in ops.iter() {
+        let f = op["f"].as_str().expect("f").to_string();
+        let args: Vec<A> = op["a"].as_array().map(|v| v.iter().map(|x| env.arg(x)).collect()).unwrap_or_default();
+        do_op(&mut env, &f, args, &mut trace);
+    }
+    if case["free_all"].as_bool().unwrap_or(true) {
+        // release whatever is still tracked, one c2pa_free per address (part of the checked trace)
+        for (addr, _) in snapshot(&names) {
+            do_op(&mut env, "c2pa_free", vec![A::P(addr)], &mut trace);
+        }
+    }
+    let end = snapshot(&names);
+    for c in env.ctxs.drain(..) {
+        unsafe { drop(Box::from_raw(c)) };
+    }
+    json!({"r": "ok", "start": start.iter().map(|(x, t)| json!([x, t])).collect::<Vec<_>>(), "trace": trace, "end": end.len()})
 }
